@@ -193,33 +193,41 @@ func (h *HyperLogLog32) UnmarshalBinary(b []byte) error {
 	if err != nil {
 		return err
 	}
-	if h.hash == nil {
-		h.hash = hash32For(srcHash)
-		if h.hash == nil {
+	dstHash := h.hash
+	if dstHash == nil {
+		dstHash = hash32For(srcHash)
+		if dstHash == nil {
 			return fmt.Errorf("card: hash function not set and no hash registered for %q", srcHash)
 		}
 	} else {
-		dstHash := typeNameOf(h.hash)
-		if dstHash != srcHash {
-			return fmt.Errorf("card: mismatched hash function: dst=%s src=%s", dstHash, srcHash)
+		dstHashName := typeNameOf(dstHash)
+		if dstHashName != srcHash {
+			return fmt.Errorf("card: mismatched hash function: dst=%s src=%s", dstHashName, srcHash)
 		}
 	}
-	err = dec.Decode(&h.p)
+	// Decode into temporaries so that a rejected input leaves the
+	// receiver unchanged.
+	var p uint8
+	err = dec.Decode(&p)
 	if err != nil {
 		return err
 	}
-	if h.p < 4 || w32 < h.p {
+	if p < 4 || w32 < p {
 		return errors.New("card: precision out of range")
 	}
-	h.m = uint32(1) << h.p
-	h.register = h.register[:0]
-	err = dec.Decode(&h.register)
+	m := uint32(1) << p
+	var register []uint8
+	err = dec.Decode(&register)
 	if err != nil {
 		return err
 	}
-	if uint64(len(h.register)) != uint64(h.m) {
+	if uint64(len(register)) != uint64(m) {
 		return errors.New("card: mismatched register length")
 	}
+	h.hash = dstHash
+	h.p = p
+	h.m = m
+	h.register = register
 	return nil
 }
 
